@@ -12,6 +12,13 @@ from .. import core
 ARENA = 0x200000000000
 STRIDE = 64
 NARENA = 16384
+TREGION = ARENA + NARENA * STRIDE       # blocks of the run-time Type objects (harness: calloc wrapped)
+TSTRIDE = 8192
+NTYPES = 16
+HEADER = 24                             # sizeof(struct Header) with the default checks
+
+class DtorRaise(Exception):
+    """a destructor raised: unwinds the mirror exactly as the C exception unwinds the collector"""
 PRIMES = [0, 1, 5, 11, 23, 53, 101, 197, 389, 683, 1259, 2417, 4733, 9371, 18617, 37097, 74093, 148073, 296099, 592019,
           1100009, 2200013, 4400021, 8800019]
 
@@ -108,7 +115,7 @@ class Sim:
         self.held = []
         self.deleted = set()     # deleted by the program
         self.cov = dict(owner_first=0, owned_first=0, reg_path=0, sweeps=0, swept=0, thr=0, cascade=0, maxdepth=0,
-                        dtor_allocs=0, nested=0, alloc_route=0, dealloc_route=0,
+                        dtor_allocs=0, nested=0, alloc_route=0, dealloc_route=0, rt_instances=0,
                         mark_aborts=0, stale_swept=0, null_dels=0, null_dels_in_sweep=0)
         self.depth = 0
         self.qchildren = {}      # id of a kind-q object -> [(child id, arena slot)]: what its destructor allocates
@@ -116,10 +123,23 @@ class Sim:
         self.stale = set()       # mark bits an abandoned mark phase left set (read by nothing since fix d8f0c4f: coverage only)
         self.in_teardown = False
         # known-finding territory met while simulating (KF-C06-dtor-alloc, F23): the generator discards such histories
-        self.kf = dict(clobber=0, late_child=0, stopped_child=0)
-    def hv(self, oid): return (ARENA + self.slot[oid] * STRIDE) >> 3
+        self.kf = dict(clobber=0, late_child=0, stopped_child=0, type_first=0, raised=0)
+        self.type_of = {}        # instance id -> id of its run-time Type object
+        self.raises = set()      # objects whose destructor raises
+        self.last_order = []
+    def hv(self, oid):
+        if self.kind[oid] == 'T': return (TREGION + self.slot[oid] * TSTRIDE + HEADER) >> 3
+        return (ARENA + self.slot[oid] * STRIDE) >> 3
+    def instances(self, t): return [b for b, tt in self.type_of.items() if tt == t and b in self.live]
     # ---- finalisation
     def finalise(self, a):
+        self._finalise(a)
+        if a in self.raises:
+            self.kf['raised'] += 1; self.live.add(a)      # dealloc is skipped: never released
+            raise DtorRaise()
+        # the memory is released: a run-time Type object before one of its instances is KF-C06-type-released-first
+        if self.kind.get(a) == 'T' and self.instances(a): self.kf['type_first'] += 1
+    def _finalise(self, a):
         self.live.discard(a)
         self.depth += 1; self.cov['maxdepth'] = max(self.cov['maxdepth'], self.depth)
         for cid, cslot in self.qchildren.get(a, []): self.child_new(cid, cslot)
@@ -172,6 +192,7 @@ class Sim:
         for x in order: del self.reg[x]
         self.mitems = thr(len(self.reg))
         self.pending = list(order)
+        self.last_order = list(order)
         self.cov['sweeps'] += 1; self.cov['swept'] += len(order)
         i = 0
         while i < len(self.pending):      # `i < gc->freenum`, re-read at every turn
@@ -233,30 +254,42 @@ class Sim:
         if op == 'a': self.cov['alloc_route'] += 1
         order = []
         self.live.add(oid)
+        tid = None
+        if kind == 'i': tid = owned; owned = None; self.type_of[oid] = tid
+        raised = False
         if how != 'w' and self.running:
             self.reg[oid] = (how == 'r')
             if self.lay: self.lay.add(oid, self.hv(oid), how == 'r')
             if len(self.reg) > self.mitems:
                 self.cov['thr'] += 1
-                order = self.sweep(self.mark_set([oid]))
-        if owned is not None:
+                try: order = self.sweep(self.mark_set([oid]))
+                except DtorRaise: order = self.last_order; raised = True
+        if owned is not None and not raised:
             self.owns[oid] = owned; self.owner[owned] = oid
         o = '-' if owned is None else str(owned)
+        if kind == 'i': o = str(tid)
         return f"{op} {oid} {kind} {how} {slot} {o} ;" + ''.join(f' {x}' for x in order)
     def delete(self, oid, how, op='d'):
         self.deleted.add(oid)
         if op == 'D': self.cov['dealloc_route'] += 1
-        if how == 'w': self.finalise(oid)
-        else:
-            before = len(self.live)
-            self.gc_rem(oid)
-            if before - len(self.live) > 1: self.cov['cascade'] += 1
+        try:
+            if how == 'w': self.finalise(oid)
+            else:
+                before = len(self.live)
+                self.gc_rem(oid)
+                if before - len(self.live) > 1: self.cov['cascade'] += 1
+        except DtorRaise: pass
         return f"{op} {oid} {how}"
+    def declare_raises(self, oid):
+        self.raises.add(oid)
+        return f'r {oid}'
     def collect(self, marks):
-        order = self.sweep(marks)
+        try: order = self.sweep(marks)
+        except DtorRaise: order = self.last_order
         return 'c' + ''.join(f' {x}' for x in sorted(marks)) + ' ;' + ''.join(f' {x}' for x in order)
     def gc(self):
-        order = self.sweep(self.mark_set())
+        try: order = self.sweep(self.mark_set())
+        except DtorRaise: order = self.last_order
         return 'g ;' + ''.join(f' {x}' for x in order)
     def mark_abort(self, ids):
         """a mark phase left by an exception after the anchor reported `ids`"""
@@ -274,10 +307,11 @@ class Sim:
         return 'k' + ''.join(f' {x}' for x in ids)
     def teardown(self):
         self.in_teardown = True
-        order = self.sweep(set())
+        try: order = self.sweep(set())
+        except DtorRaise: order = self.last_order
         return 'e ;' + ''.join(f' {x}' for x in order)
 
-def gen_history(rng, primes, nops, mode=None, ordered=None, stops=False, nslots_used=None, chain_bias=0.35, maxlive=120, keep=0.7, qprob=0.0, zprob=0.15):
+def gen_history(rng, primes, nops, mode=None, ordered=None, stops=False, nslots_used=None, chain_bias=0.35, maxlive=120, keep=0.7, qprob=0.0, zprob=0.15, tprob=0.3):
     """one history (list of op lines) + coverage.  qprob = share of leaf allocations whose destructor allocates"""
     mode = mode or ('thread' if rng.random() < 0.3 else 'main')
     ordered = (rng.random() < 0.65) if ordered is None else ordered
@@ -296,7 +330,7 @@ def gen_history(rng, primes, nops, mode=None, ordered=None, stops=False, nslots_
     def take_slot():
         if not free_slots: return None
         return free_slots.pop(rng.randrange(len(free_slots)) if rng.random() < 0.5 else -1)
-    def tops(): return [x for x in sim.live if sim.is_top(x) and x != 0]
+    def tops(): return [x for x in sim.live if sim.is_top(x) and x != 0 and sim.kind[x] != 'T']
     def tree_has(top, pred): return any(pred(x) for x in sim.tree(top))
     def set_held(ids):
         ids = [x for x in dict.fromkeys(ids) if x in sim.live and sim.is_top(x)]
@@ -309,6 +343,12 @@ def gen_history(rng, primes, nops, mode=None, ordered=None, stops=False, nslots_
     # the anchor: a root object whose Mark instance reports the held objects
     s0 = take_slot()
     lines.append(sim.new(fresh(), 'a', 'r', s0, None))
+    # run-time Type objects (new_root(Type, …) / new_raw(Type, …)): kept by the program until every instance has been
+    # released (a Type the collector may sweep is the territory of known finding KF-C06-type-released-first)
+    rtypes = []
+    if rng.random() < tprob:
+        for _ in range(rng.choice([1, 1, 2])):
+            tid = fresh(); lines.append(sim.new(tid, 'T', rng.choice('rrw'), len(rtypes), None, op='a' if rng.random() < 0.2 else 'n')); rtypes.append(tid)
     for _ in range(nops):
         r = rng.random()
         live_tops = tops()
@@ -320,6 +360,7 @@ def gen_history(rng, primes, nops, mode=None, ordered=None, stops=False, nslots_
             if ordered: kind = 'b' if (make_box or empty_box) else 'p'
             else: kind = rng.choice(['b', 'B']) if (make_box or empty_box) else 'p'
             if kind == 'p' and qprob and rng.random() < qprob: kind = 'q'
+            elif kind == 'p' and rtypes and rng.random() < 0.4: kind = 'i'      # an instance of a run-time type
             if not sim.running: how = 'w'          # new/new_root while stopped is the territory of known finding F23
             else: how = rng.choice(['s', 's', 's', 's', 'r', 'w'])
             if stops and how == 'r' and make_box: how = 's'
@@ -329,6 +370,7 @@ def gen_history(rng, primes, nops, mode=None, ordered=None, stops=False, nslots_
                 if slot is None: continue
             owned = rng.choice(cand) if make_box else None
             if owned is not None and stops and sim.how[owned] == 'r': owned = None; kind = 'p' if kind != 'B' else 'B'
+            if kind == 'i': owned = rng.choice(rtypes); sim.cov['rt_instances'] = sim.cov.get('rt_instances', 0) + 1
             oid = fresh()
             if ordered and how != 'w' and sim.running and len(sim.reg) + 1 > sim.mitems:
                 # this registration will run a threshold collection.  Which garbage the real conservative stack scan lets
@@ -348,7 +390,7 @@ def gen_history(rng, primes, nops, mode=None, ordered=None, stops=False, nslots_
             if kind in 'pqb' and rng.random() < zprob:
                 lines.append(sim.declare_nulldel(oid))          # its destructor will also do del(NULL)
             # the program keeps the new object (mostly); an owned object is from now on reached through its owner
-            kept = [h for h in sim.held if h != owned]
+            kept = [h for h in sim.held if h != owned or kind == 'i']
             if how == 'w' or rng.random() < keep: kept.append(oid)
             set_held(kept)
         elif r < 0.47:
@@ -427,6 +469,11 @@ def gen_history(rng, primes, nops, mode=None, ordered=None, stops=False, nslots_
     # a root that is owned is deleted by its owner; owners that are garbage go at teardown. The anchor goes last.
     set_held([])
     if qprob: lines.append(sim.gc())      # what the destructors allocated is reclaimed before teardown
+    if rtypes:
+        # the program deletes a run-time Type object once none of its instances is left (garbage ones are reclaimed first)
+        lines.append(sim.gc())
+        for t in rtypes:
+            if not sim.instances(t): lines.append(sim.delete(t, sim.how[t]))
     lines.append(sim.delete(0, 'r'))
     lines.append(sim.teardown())
     # released arena slots are reused only across histories: a history never reuses an address it has used
@@ -562,7 +609,7 @@ def _nontrivial(cov):
 class C06(Spec):
     id = 'C06'; engine = 'life'; harness = 'h_life'; driver = 'drv_life'
     generators = ('Life',)
-    harness_flags = ('-Wl,--wrap=free',)
+    harness_flags = ('-Wl,--wrap=free', '-Wl,--wrap=calloc')
     harness_timeout = 300
     technique = ('Lean 4 proof by induction over histories with a nested induction over destructor cascades — an exact-effect invariant for exactly-once, '
                  'a potential-object invariant (what is in no table never comes back; what enters has a fresh identity) for safety under nested collections — '
@@ -620,6 +667,8 @@ class C06(Spec):
                    'roots and raw objects are deleted by the program before teardown (documented obligation)',
                    'known finding KF-C06-dtor-alloc: an object whose destructor allocates is generated only where its destructor runs outside that territory (no nested collection over a non-empty pending list, none in histories that compare pending orders, no allocation during the teardown sweep); the theorems carry NoDtor ops',
                    'known finding KF-C06-dealloc-registered: dealloc(destruct(x)) is generated for raw objects only (WellFormed: dealloc only of a raw object not yet released)',
+                   'known finding KF-C06-type-released-first: run-time Type objects (new(Type, …)) are generated as root or raw objects only, which the program deletes after the last instance has been released (hypothesis TypesKept of C06_exactly_once_typed / C06_types_kept_never_released_first); a Type object the collector may sweep is generated in the witness only',
+                   'known finding KF-C06-dtor-raises: destructors that raise are not generated (hypothesis NoRaise; the second layer of the model is the core model for such histories by definition); the raise-aware functions (…R) are compared with the real collector on corpus/kf_c06_dtor_raises.ops only',
                    'single collector per thread; objects are not shared between threads')
     def cases(self, rng, tier, boost=1):
         primes = gc_primes()
@@ -643,7 +692,10 @@ class C06(Spec):
                     lines, cov, sim = gen_history(rng, primes, nops, stops=False, ordered=True, maxlive=120 if quick else 300,
                                                   keep=rng.choice([0.7, 0.9]), qprob=0.3 if attempt < 7 else 0.0)
                     if not any(sim.kf.values()) and not sim.cov['nested']: break
-            else: lines, cov, _ = gen_history(rng, primes, nops, stops=stops, maxlive=120 if quick else 300, keep=rng.choice([0.5, 0.7, 0.9]))
+            else:
+                lines, cov, sim = gen_history(rng, primes, nops, stops=stops, maxlive=120 if quick else 300, keep=rng.choice([0.5, 0.7, 0.9]))
+                if sim.kf['type_first'] or sim.kf['raised']:      # (cannot happen by construction; never emit such a history)
+                    lines, cov, sim = gen_history(rng, primes, nops, stops=stops, maxlive=120 if quick else 300, tprob=0.0)
             hs.append((lines, cov))
         for i in range(0, len(hs), per):
             chunk = hs[i:i+per]
